@@ -107,6 +107,7 @@ type c12Op struct {
 	val    c12Val
 	signed bool
 	extra  attributes.Attributes // attribute bits the writer's definition has beyond the stock one
+	reuse  bool                  // one signed-update object (SignEFIVariable) written twice with WriteVar
 }
 
 func c12Ops(tier string) []c12Op {
@@ -122,6 +123,11 @@ func c12Ops(tier string) []c12Op {
 		if v.isDB {
 			for _, val := range vals {
 				ops = append(ops, c12Op{name: fmt.Sprintf("WriteSignedUpdate(%s,%s)", v.v.Name, val.name), vi: vi, val: val, signed: true})
+			}
+		}
+		if vi == 0 {
+			for _, val := range []c12Val{vals[1], vals[2]} {
+				ops = append(ops, c12Op{name: fmt.Sprintf("WriteVar twice with one SignEFIVariable object (%s,%s)", v.v.Name, val.name), vi: vi, val: val, signed: true, reuse: true})
 			}
 		}
 		// the same variable addressed through a definition carrying more attribute bits than the
@@ -176,6 +182,16 @@ func (w *c12World) apply(vars []c12Var, op c12Op) error {
 	m := c12Marshallable(v, op.val)
 	def := v.v
 	def.Attributes |= op.extra
+	if op.reuse {
+		_, su, err := signature.SignEFIVariable(def, m, signerK1(), keys.C(1))
+		if err != nil {
+			return err
+		}
+		if err := w.e.WriteVar(def, su); err != nil {
+			return err
+		}
+		return w.e.WriteVar(def, su)
+	}
 	if op.signed {
 		return w.e.WriteSignedUpdate(def, m, signerK1(), keys.C(1))
 	}
